@@ -1,9 +1,48 @@
 #!/usr/bin/env python3
 """re-runs every check against every stored change (seeded/*/patch.diff, harmless/*/patch.diff) and rewrites the verdicts in
-their meta.json; usage: recheck.py [id ...]   (about 4 minutes per change)"""
+their meta.json; usage: recheck.py [-jN] [id ...]   (about 4 minutes per change)"""
 import json, os, re, subprocess, sys, glob
 V = os.path.dirname(os.path.dirname(os.path.abspath(__file__)))
-only = set(sys.argv[1:])
+from concurrent.futures import ThreadPoolExecutor
+args = sys.argv[1:]
+jobs = 1
+if args and args[0].startswith('-j'):
+    jobs = int(args[0][2:] or 1)
+    args = args[1:]
+only = set(args)
+
+
+def one(p):
+    d = os.path.dirname(p)
+    sid = os.path.basename(d)
+    mp = os.path.join(d, 'meta.json')
+    meta = json.load(open(mp)) if os.path.exists(mp) else {'id': sid}
+    r = subprocess.run([os.path.join(V, 'tools', 'seedtest.sh'), p], capture_output=True, text=True)
+    verdict = {}
+    for l in r.stdout.splitlines():
+        m = re.match(r'(C\d+) rc=(\d) (.*)', l)
+        if m:
+            clauses = sorted(set(re.findall(r'replay=\S*/replay/C\d+-([A-Za-z0-9_.\-]+)\.json', m.group(3))))
+            verdict[m.group(1)] = {'exit': int(m.group(2)), 'failed_obligations': clauses} if int(m.group(2)) == 1 else {'exit': int(m.group(2)), 'note': m.group(3)[:200] if int(m.group(2)) == 2 else ''}
+    if not verdict:
+        print(sid, 'NO VERDICTS', r.stdout[-300:], r.stderr[-300:], flush=True)
+        return
+    meta['checks_on_changed_tree'] = verdict
+    if 'breaks_property' in meta:
+        meta['caught_by_target_check'] = verdict.get(meta['breaks_property'], {}).get('exit') == 1
+        meta['caught_by'] = sorted(k for k, v in verdict.items() if v.get('exit') == 1)
+    else:
+        meta['alarms'] = sorted(k for k, v in verdict.items() if v.get('exit') == 1)
+        meta['undecided'] = sorted(k for k, v in verdict.items() if v.get('exit') == 2)
+    json.dump(meta, open(mp, 'w'), indent=1)
+    print(sid, 'alarms:', sorted(k for k, v in verdict.items() if v.get('exit') == 1), 'undecided:', sorted(k for k, v in verdict.items() if v.get('exit') == 2), flush=True)
+
+
+todo = [p for p in sorted(glob.glob(os.path.join(V, 'seeded', '*', 'patch.diff')) + glob.glob(os.path.join(V, 'harmless', '*', 'patch.diff')))
+        if not only or os.path.basename(os.path.dirname(p)) in only]
+with ThreadPoolExecutor(max_workers=jobs) as ex:
+    list(ex.map(one, todo))
+sys.exit(0)
 for p in sorted(glob.glob(os.path.join(V, 'seeded', '*', 'patch.diff')) + glob.glob(os.path.join(V, 'harmless', '*', 'patch.diff'))):
     d = os.path.dirname(p)
     sid = os.path.basename(d)
